@@ -1327,6 +1327,15 @@ func init() {
 						if ta, ok := x.Tuple.(*ssa.TypeAssert); ok && ta.X == ssa.Value(data) {
 							continue
 						}
+						// `if m, ok := otherConverter(data); ok { return m }`: data that takes this way out is
+						// converted by a sibling (maps of other types), not replaced by an empty map
+						if cl, ok := x.Tuple.(*ssa.Call); ok {
+							if callee := cl.Call.StaticCallee(); callee != nil && inModule(callee) && len(cl.Call.Args) == 1 && cl.Call.Args[0] == ssa.Value(data) {
+								if _, isMap := callee.Signature.Results().At(0).Type().Underlying().(*types.Map); isMap {
+									continue
+								}
+							}
+						}
 					case *ssa.Call:
 						if kindOf(x) {
 							continue
@@ -1930,27 +1939,8 @@ func init() {
 							if !ok || !keyword(s) || ai >= len(callee.Params) {
 								continue
 							}
-							prm := callee.Params[ai]
-							foldedUse, plainUse := false, ""
-							for _, cs := range callsIn(callee) {
-								uses := false
-								for _, ca := range cs.Common().Args {
-									for _, o := range p.origins(ca, OriginOpts{}) {
-										if o == ssa.Value(prm) {
-											uses = true
-										}
-									}
-								}
-								if !uses {
-									continue
-								}
-								switch cn := calleeName(cs.Common()); cn {
-								case "strings.EqualFold", "bytes.EqualFold", "strings.ToLower", "strings.ToUpper", "bytes.ToLower", "bytes.ToUpper":
-									foldedUse = true
-								case "strings.HasPrefix", "strings.Contains", "strings.Index", "bytes.HasPrefix", "bytes.Contains", "bytes.Index", "strings.HasSuffix", "bytes.HasSuffix", "bytes.Equal":
-									plainUse = cn
-								}
-							}
+							// (followed through module predicates that only hand the keyword on: hasTagPrefixFold → hasPrefixFold)
+							foldedUse, plainUse := keywordUse(p, callee, ai, 0)
 							n++
 							c.check(foldedUse && plainUse == "", fmt.Sprintf("%s: %s(…, %q)#%d ignores letter case", shortName(fn), name, s, n), p.instrPos(site), "the predicate compares with EqualFold / on a case-folded copy", "the source is compared with "+fmt.Sprintf("%q", s)+" case-sensitively (by "+plainUse+" inside "+name+"): a document written with the keyword in another case is not recognised as a full document")
 						}
@@ -2213,4 +2203,44 @@ func init() {
 			}
 		},
 	})
+}
+
+// keywordUse: how a module predicate uses its parameter number pi — in a case-insensitive comparison (EqualFold, a
+// folded copy), in a plain one (the name of the function is returned), or by handing it on to another module
+// function, which is then asked the same question.
+func keywordUse(p *Prog, callee *ssa.Function, pi int, depth int) (folded bool, plain string) {
+	if depth > 3 || pi >= len(callee.Params) {
+		return false, ""
+	}
+	prm := callee.Params[pi]
+	for _, cs := range callsIn(callee) {
+		argIdx := -1
+		for i, ca := range cs.Common().Args {
+			for _, o := range p.origins(ca, OriginOpts{}) {
+				if o == ssa.Value(prm) {
+					argIdx = i
+				}
+			}
+		}
+		if argIdx < 0 {
+			continue
+		}
+		switch cn := calleeName(cs.Common()); cn {
+		case "strings.EqualFold", "bytes.EqualFold", "strings.ToLower", "strings.ToUpper", "bytes.ToLower", "bytes.ToUpper":
+			folded = true
+		case "strings.HasPrefix", "strings.Contains", "strings.Index", "bytes.HasPrefix", "bytes.Contains", "bytes.Index", "strings.HasSuffix", "bytes.HasSuffix", "bytes.Equal":
+			plain = cn
+		default:
+			if next := cs.Common().StaticCallee(); next != nil && inModule(next) && len(next.Blocks) > 0 {
+				f2, p2 := keywordUse(p, next, argIdx, depth+1)
+				if f2 {
+					folded = true
+				}
+				if p2 != "" {
+					plain = p2
+				}
+			}
+		}
+	}
+	return folded, plain
 }
